@@ -67,3 +67,6 @@ classdef("BenchmarkFunction", bases=["Problem"], fields={"dimension": "Int"})
 for _c in ("DTLZI", "DTLZII", "DTLZIII", "DTLZIV", "ZDT1", "BiObjectiveTestProblem"):
     classdef(_c, bases=["BenchmarkFunction"], fields={})
 classdef("Results", fields={"problem": "Ref[Problem]"})
+classdef("Selector", fields={"parameters": "List[Ref[Parameter]]", "comparator": "Ref[Dominance]", "dominance": "Ref[Dominance]"})
+classdef("TournamentSelector", bases=["Selector"], fields={})
+classdef("CopySelector", bases=["Selector"], fields={})
